@@ -481,7 +481,9 @@ func runOne(ctx context.Context, sp solverSpec, file string, timeoutS, seed int)
 	case "timeout":
 		st = "timeout"
 	default:
-		if ctx.Err() != nil {
+		if strings.Contains(first, "error") && ctx.Err() == nil {
+			st = "error"
+		} else if ctx.Err() != nil {
 			st = "cancelled"
 		} else if cctx.Err() != nil || strings.Contains(text, "timeout") || strings.Contains(text, "interrupted") {
 			st = "timeout"
@@ -531,6 +533,15 @@ func solve(file string, timeoutS, seed int, thorough bool) SolverResult {
 			if s == "timeout" {
 				st = "timeout"
 			}
+		}
+		nerr := 0
+		for _, s := range all {
+			if s == "error" {
+				nerr++
+			}
+		}
+		if nerr == len(all) {
+			st = "error"
 		}
 		last.Status = st
 		last.All = all
